@@ -78,7 +78,10 @@ SPEC = {
         "by_name_agrees_with_whole_file", "metadata_is_the_allocation",
         "attribute_fold_later_wins", "accepted_annotations_agree", "declarator_groups_independent",
         "declarator_group_depends_only_on_itself", "front_lists_each_declarator", "agrees_get",
-        "declarator_lands_in_its_own_group"]],
+        "declarator_lands_in_its_own_group",
+        "compile_refuses_buffer_address_off_vulkan", "returned_parameter_set_is_one_of_four",
+        "annotation_without_register_class_rejected", "accepted_without_register_class_has_no_annotation",
+        "cbuffer_members_only_reject", "accepted_member_has_no_register"]],
     "harness": "c06",
     "level_text": "Proof: the allocator model (a fold with two counters) is proved, for every declaration sequence, default group "
                   "and parameter set compile() can build, to hand out per-group index ranges that tile [0,total) in declaration "
